@@ -665,6 +665,26 @@ func (env *SpecEnv) call(e *SExpr) specVal {
 			env.fail("boxed(nil)")
 		}
 		return specVal{fx.makeIface(x.t, x.typ), types.NewInterfaceType(nil, nil)}
+	case "mk":
+		// mk("T", f1, ..., fn): the struct value of type T with the given field values
+		if len(e.Args) < 1 || e.Args[0].Kind != "string" {
+			env.fail("mk needs a type name")
+		}
+		t, err := fx.e.resolveType(env.pkg, e.Args[0].Str)
+		if err != nil {
+			env.fail("%v", err)
+		}
+		st, ok := t.Underlying().(*types.Struct)
+		if !ok || st.NumFields() != len(e.Args)-1 {
+			env.fail("mk(%s): needs %d field values", e.Args[0].Str, st.NumFields())
+		}
+		si := fx.e.structOf(t)
+		var fs []*Term
+		for i := 0; i < st.NumFields(); i++ {
+			v := env.expr(e.Args[i+1])
+			fs = append(fs, v.t)
+		}
+		return specVal{Ctor(si.ctor, fs...), t}
 	case "deref":
 		// deref(p): the value stored in the cell p points to (non-struct element types)
 		x := env.expr(e.Args[0])
@@ -703,6 +723,26 @@ func (env *SpecEnv) call(e *SExpr) specVal {
 	case "heapeq":
 		// heapeq(): whole heap unchanged since old state (all components touched so far)
 		return specVal{fx.heapUnchanged(env.old, env.st), tBool}
+	case "keyof":
+		// keyof(m, k): the abstract key (an integer, equal for equal key values) under which k is stored in m
+		m := env.expr(e.Args[0])
+		k := env.expr(e.Args[1])
+		mt := m.typ.Underlying().(*types.Map)
+		kk := fx.mapKey(k.t, mt.Key())
+		if kk.S != SInt {
+			env.fail("keyof: keys of %s are not abstracted", mt)
+		}
+		return specVal{kk, tInt}
+	case "mapdomk", "mapvalk":
+		// mapdomk(m, c) / mapvalk(m, c): presence / value of the entry with abstract key c
+		m := env.expr(e.Args[0])
+		c := env.expr(e.Args[1])
+		mt := m.typ.Underlying().(*types.Map)
+		dn, vn, ds, vs := fx.mapHeapNames(mt)
+		if e.Name == "mapdomk" {
+			return specVal{Select(Select(fx.heapGet(env.st, dn, ds), m.t), c.t), tBool}
+		}
+		return specVal{Select(Select(fx.heapGet(env.st, vn, vs), m.t), c.t), mt.Elem()}
 	case "mapdom":
 		// mapdom(m, k): key k present in map m
 		m := env.expr(e.Args[0])
@@ -940,6 +980,13 @@ func (env *SpecEnv) assignLoc(e *SExpr) *assignLoc {
 				}
 			}
 			env.fail("heap(): no field %s", a.Name)
+		case "mapof":
+			// mapof(m): the contents (domain and values) of map m
+			x := env.expr(e.Args[0])
+			if _, ok := x.typ.Underlying().(*types.Map); !ok {
+				env.fail("mapof() needs a map")
+			}
+			return &assignLoc{ref: x.t, refKind: "map", ptype: x.typ}
 		case "elems":
 			x := env.expr(e.Args[0])
 			var et types.Type
